@@ -86,6 +86,17 @@ Proof.
   destruct ((p_off (e_pub e) =? eo) && (epoch =? ee)); congruence.
 Qed.
 
+Lemma hubR_set_ret : forall cfgs h s r, hubR cfgs h s -> hubR cfgs (set_ret h r) s.
+Proof. intros cfgs h s r (HC & HI & HN & HE & HB). unfold hubR; simpl. auto. Qed.
+Lemma hubR_touch_stream : forall cfgs h s ch t, hubR cfgs h s -> hubR cfgs (touch_stream h ch t) s.
+Proof. intros. unfold touch_stream. destruct (ttl_touch _ _ _ _ _) as [[m q] nx]. apply hubR_set_ret. assumption. Qed.
+Lemma hubR_touch_meta : forall cfgs h s ch t, hubR cfgs h s -> hubR cfgs (touch_meta h ch t) s.
+Proof.
+  intros. unfold touch_meta. destruct (0 <? t); auto.
+Qed.
+Lemma hubR_ret_touch : forall cfgs h s cf ch, hubR cfgs h s -> hubR cfgs (ret_touch cf h ch) s.
+Proof. intros. unfold ret_touch. destruct (has_stream (cf_mode cf)); auto. apply hubR_touch_meta, hubR_touch_stream. assumption. Qed.
+
 Lemma hubR_track : forall cfgs h s k d, hubR cfgs h s -> hubR cfgs (track h k d) s.
 Proof. intros cfgs h s k d (HC & HI & HN & HE & HB). unfold hubR; hub_simpl. auto. Qed.
 
@@ -141,9 +152,9 @@ Lemma keymode_spec : forall cf h1 ch c k o cur,
       Some (match r, cur with
             | RKeyExists, Some e =>
                 if po_refresh o && (0 <? cf_keyttl cf)
-                then track (set_chan h1 ch (set_entry_nodirty c (aset key_eqb (c_state c) k
+                then touch_meta (track (set_chan h1 ch (set_entry_nodirty c (aset key_eqb (c_state c) k
                               (mkEntry (e_pub e) (h_now h1 + cf_keyttl cf) (e_ver e) (e_vep e)))))
-                           (ch, k) (h_now h1 + cf_keyttl cf)
+                           (ch, k) (h_now h1 + cf_keyttl cf)) ch (cf_mttl cf)
                 else h1
             | _, _ => h1
             end, r)
@@ -193,7 +204,7 @@ Proof.
     destruct (chk_keymode_cases _ _ _ _ CKM) as [[-> [e Ecur]]|[-> Ecur]]; rewrite Ecur in *.
     - simpl in H1, H2. inversion H1; inversion H2; subst; clear H1 H2. split; auto.
       destruct (po_refresh o && (0 <? cf_keyttl cf)); auto.
-      apply hubR_track. apply hubR_set_both; auto.
+      apply hubR_touch_meta. apply hubR_track. apply hubR_set_both; auto.
       rewrite N1, HN.
       unfold chanR, ord_ok, cache_ok, set_entry_nodirty in *; simpl. rewrite EM in *.
       splits; auto; try tauto.
@@ -221,7 +232,7 @@ Proof.
     destruct (is_empty k) eqn:EK0.
     + simpl in H1, H2. inversion H1; inversion H2; subst; clear H1 H2.
       unfold s_pos; simpl. rewrite <- EL'. split; auto.
-      apply hubR_bcast. apply idem_save_sim. apply hubR_set_both; auto.
+      apply hubR_bcast. apply idem_save_sim. apply hubR_ret_touch. apply hubR_set_both; auto.
       unfold chanR, set_stream, ord_ok, cache_ok in *; simpl. rewrite <- EL'. splits; auto; try tauto.
       intro Z0. rewrite SZ in Z0. lia.
     + simpl in H1, H2.
@@ -241,14 +252,14 @@ Proof.
       rewrite EM in H1.
       destruct (0 <? cf_keyttl cf) eqn:TT; inversion H1; inversion H2; subst; clear H1 H2;
         unfold s_pos; simpl; rewrite <- EL'; (split; [reflexivity|]);
-        apply hubR_bcast; apply idem_save_sim; try apply hubR_track; apply hubR_set_both; auto.
+        apply hubR_bcast; apply idem_save_sim; apply hubR_ret_touch; try apply hubR_track; apply hubR_set_both; auto.
   - (* no stream *)
     assert (LG : sc_log sc = []) by (apply EL; rewrite SZ; reflexivity).
     rewrite orb_false_l in H1. rewrite EP in H1.
     destruct (is_empty k) eqn:EK0.
     + simpl in H1, H2. inversion H1; inversion H2; subst; clear H1 H2.
       unfold s_pos; simpl. split; auto.
-      apply hubR_bcast. apply idem_save_sim. apply hubR_set_both; auto.
+      apply hubR_bcast. apply idem_save_sim. apply hubR_ret_touch. apply hubR_set_both; auto.
     + simpl in H1, H2.
       assert (HD : (if 0 <? cf_keyttl cf then h_now h1 + cf_keyttl cf else 0) = deadline cf (ss_now s)).
       { unfold deadline. rewrite N1, HN. reflexivity. }
@@ -260,7 +271,7 @@ Proof.
         - discriminate. }
       destruct (0 <? cf_keyttl cf) eqn:TT; inversion H1; inversion H2; subst; clear H1 H2;
         unfold s_pos; simpl; (split; [reflexivity|]);
-        apply hubR_bcast; apply idem_save_sim; try apply hubR_track; apply hubR_set_both; auto.
+        apply hubR_bcast; apply idem_save_sim; apply hubR_ret_touch; try apply hubR_track; apply hubR_set_both; auto.
 Qed.
 
 Lemma hubR_set_exp : forall cfgs h s a b c, hubR cfgs h s -> hubR cfgs (set_exp h a b c) s.
@@ -336,7 +347,7 @@ Proof.
     unfold s_pos; simpl; rewrite app_length; simpl.
     replace (N.of_nat (length (sc_log sc) + 1)) with (N.of_nat (length (sc_log sc)) + 1) by lia.
     split; [reflexivity|].
-    apply hubR_bcast; apply idem_save_sim; apply hubR_set_both; [apply hubR_set_exp; assumption|].
+    apply hubR_bcast; apply idem_save_sim; try apply hubR_ret_touch; apply hubR_set_both; [apply hubR_set_exp; assumption|].
     unfold chanR, set_stream, set_state, ord_ok, cache_ok in *; simpl.
     rewrite app_length; simpl.
     replace (N.of_nat (length (sc_log sc) + 1)) with (N.of_nat (length (sc_log sc)) + 1) by lia.
@@ -344,7 +355,7 @@ Proof.
     intro Z0. rewrite SZ in Z0. lia.
   - inversion H1; inversion H2; subst; clear H1 H2.
     unfold s_pos; simpl. split; [reflexivity|].
-    apply hubR_bcast; apply idem_save_sim; apply hubR_set_both; [apply hubR_set_exp; assumption|].
+    apply hubR_bcast; apply idem_save_sim; try apply hubR_ret_touch; apply hubR_set_both; [apply hubR_set_exp; assumption|].
     unfold chanR, set_stream, set_state, ord_ok, cache_ok in *; simpl.
     splits; auto; try tauto; try discriminate.
 Qed.
